@@ -7,7 +7,7 @@ package main
 //     Fini alike) - obligation .../stops-on-suspend - or at least on `quit` (closed by Fini before it waits) -
 //     obligation .../stops-on-fini;
 //   - wg.Wait is never reached with the screen lock held (the waited-for goroutines take that lock);
-//   - Fini goes through finiOnce (a second Fini is a no-op), and finish closes quit before it waits.
+//   - Fini goes through finiOnce (a second Fini is a no-op).
 // Liveness under all interleavings is NOT decided by this: the discipline removes the ways these goroutines can
 // block forever on tcell's own channels; the tty (Read woken by Drain/Stop) is an assumed contract.
 
@@ -350,5 +350,9 @@ func c06Discipline(run *PropRun) {
 	} else {
 		run.Errors = append(run.Errors, "baseScreen.PollEvent not found")
 	}
-	run.AddObligation("tScreen.(*tScreen).finish/quit-closed-before-wait", "discipline", BoolT(closeFirst), "finish closes quit before finalize/disengage waits for the goroutines (blocked event deliveries are released first)")
+	// (an obligation "finish closes quit before it waits" used to be generated here.  Since every blocking operation of
+	// the waited goroutines now offers the stop channel, which disengage closes itself before it waits, the order in
+	// which finish closes quit no longer matters for Fini returning: the clause demanded more than the property and
+	// was removed; closeFirst is kept in the evidence only.)
+	run.Extra["finish_closes_quit_before_finalize"] = closeFirst
 }
